@@ -183,7 +183,7 @@ def sym_ite(c, a, b):
 
 def cascade_obligation(name):
     return Obligation(name, ob_cascade_rows, kind="proof", functions=[pta.problem_table_algorithm], timeout_ms=30000,
-                      stubs=("_sum_mcp_between_temperature_boundaries (arbitrary interval sums; its own contract is the bounded slice)",),
+                      stubs=("_sum_mcp_between_temperature_boundaries (arbitrary interval sums; its own contract: C05.content.rows.u and the bounded slices)",),
                       expect=("width_is_gap_to_row_above", "residual_non_negative_on_every_row", "net_minus_cold_plus_hot_is_constant.step", "net_is_cold_minus_hot", "residual_touches_zero"),
                       doc="UNBOUNDED in the number of rows: row invariant, pinched residual, net = cold - hot (induction), Qh dominates every deficit, frame")
 
